@@ -78,6 +78,15 @@ var userVariants = []variantKind{
 	{"signature-extended", func(c *Ctx, b *nom.AccountBlock) bool { b.Signature = append(append([]byte{}, b.Signature...), 0); return true }},
 }
 
+func containsStr(l []string, s string) bool {
+	for _, x := range l {
+		if x == s {
+			return true
+		}
+	}
+	return false
+}
+
 func init() {
 	register("variants", func(c *Ctx) {
 		for i := 0; i < c.N; i++ {
@@ -128,6 +137,7 @@ func variantsHistory(c *Ctx, id int) {
 	}
 	users := []types.Address{g.User1.Address, g.User2.Address, g.User3.Address, g.User4.Address, g.User5.Address}
 	rounds := 10 + c.R.Intn(8)
+	var abFields, mFields []string // fields not covered by the hash, found by experiment on the first block / momentum
 	for r := 0; r < rounds; r++ {
 		// honest traffic on the producer: a few user blocks (sends, receives, contract calls), pooled, not yet in a momentum
 		var fresh []*nom.AccountBlock
@@ -160,7 +170,31 @@ func variantsHistory(c *Ctx, id int) {
 		for _, b := range fresh {
 			vk := userVariants[c.R.Intn(len(userVariants))]
 			v := cloneBlock(b)
+			field := ""
+			if c.R.Intn(3) != 0 {
+				// the generic family: every alteration of every field the hash does not cover (found by experiment on this block)
+				if abFields == nil {
+					abFields = abUncoveredFields(b)
+					for _, fn := range abFields {
+						c.Hit("uncovered-account-block-field-" + fn)
+					}
+					if !containsStr(abFields, "Signature") || !containsStr(abFields, "PublicKey") {
+						fail("the experiment on ComputeHash says signature / public key are covered by the hash: %v", abFields)
+					}
+				}
+				fvs := fieldVariantsOf(b, abFields)
+				fv := fvs[c.R.Intn(len(fvs))]
+				field = fv.field
+				vk = variantKind{fv.name(), func(c *Ctx, x *nom.AccountBlock) bool { return applyFieldMut(c, x, fv.field, fv.mut) }}
+			}
 			if !vk.f(c, v) {
+				continue
+			}
+			// what a peer can deliver is a decoded message: caches (producer address) follow the delivered bytes
+			if v = rewireBlock(v); v == nil {
+				continue
+			}
+			if v.Hash != b.Hash {
 				continue
 			}
 			gerr := f.Gossip([]*nom.AccountBlock{v})
@@ -179,11 +213,12 @@ func variantsHistory(c *Ctx, id int) {
 					y, _ := b.Serialize()
 					if !bytes.Equal(x, y) {
 						tag := "C13"
-						if vk.name == "changes-hash-random" || vk.name == "changes-hash-zero" {
+						if vk.name == "changes-hash-random" || vk.name == "changes-hash-zero" || field == "ChangesHash" {
 							tag = "C13 user-block-changes-hash"
 							poisoned = true
 						}
-						fail("%s: a variant (%s) of block %s/%d with the same hash %s was accepted by a follower and is stored with different bytes than the original", tag, vk.name, addrName(b.Address), b.Height, h8(b.Hash))
+						fail("%s: a variant (%s) of block %s/%d with the same hash %s was accepted by a follower and is stored with different bytes than the original (original %d bytes, signature %d bytes, public key %d bytes; stored %d bytes, signature %d bytes, public key %d bytes)",
+							tag, vk.name, addrName(b.Address), b.Height, h8(b.Hash), len(y), len(b.Signature), len(b.PublicKey), len(x), len(hb.Signature), len(hb.PublicKey))
 					}
 				}
 			}
@@ -198,7 +233,95 @@ func variantsHistory(c *Ctx, id int) {
 			fail("reference follower refused honest data: %v", err)
 			return
 		}
-		if err := deliverHonest(f, H, delivered+1); err != nil {
+		// lying peer, momentum level: the producer's momentum H with a field the hash does not cover (public key, signature)
+		// altered reaches follower f before the honest one. Accepted = it must be stored with the honest bytes.
+		if !poisoned && c.R.Intn(3) != 0 {
+			if H-1 > f.Height() {
+				if err := deliverHonest(f, H-1, f.Height()+1); err != nil {
+					fail("C13/C02: after a variant of a pooled block was gossiped to it, a follower refuses the producer's momentum: %v", err)
+					return
+				}
+			}
+			st := a.Chain().GetFrontierMomentumStore()
+			m, _ := st.GetMomentumByHeight(H)
+			dm, perr := st.PrefetchMomentum(m)
+			if perr == nil && f.Height() == H-1 {
+				if mFields == nil {
+					mFields = momentumUncoveredFields(m)
+					for _, fn := range mFields {
+						c.Hit("uncovered-momentum-field-" + fn)
+					}
+					if !containsStr(mFields, "Signature") || !containsStr(mFields, "PublicKey") {
+						fail("the experiment on Momentum.ComputeHash says signature / public key are covered by the hash: %v", mFields)
+					}
+				}
+				fvs := fieldVariantsOf(m, mFields)
+				fv := fvs[c.R.Intn(len(fvs))]
+				vm := cloneMomentum(m)
+				if abFields != nil && len(dm.AccountBlocks) > 0 && c.R.Intn(4) == 0 {
+					// instead: the honest momentum, but one of its user blocks is served with an uncovered field altered
+					i := c.R.Intn(len(dm.AccountBlocks))
+					b := dm.AccountBlocks[i]
+					bvs := fieldVariantsOf(b, abFields)
+					bv := bvs[c.R.Intn(len(bvs))]
+					v := cloneBlock(b)
+					if (b.BlockType == nom.BlockTypeUserSend || b.BlockType == nom.BlockTypeUserReceive) && applyFieldMut(c, v, bv.field, bv.mut) {
+						if v = rewireBlock(v); v != nil && v.Hash == b.Hash {
+							blocks := append([]*nom.AccountBlock{}, dm.AccountBlocks...)
+							blocks[i] = v
+							_, lerr := f.InsertChain([]*nom.DetailedMomentum{{Momentum: m, AccountBlocks: blocks}})
+							res := "accepted"
+							if lerr != nil {
+								res = "rejected"
+							}
+							if bv.field == "ChangesHash" {
+								// known finding F9 again: the block is pooled with the served changes hash even though the momentum is refused
+								poisoned = true
+							}
+							c.Emit("variant user-in-momentum %s | %s", bv.name(), res)
+							c.Hit("lie-user-" + bv.name() + "-" + res)
+							if lerr == nil {
+								if hb, _ := f.ch.GetFrontierAccountStore(b.Address).ByHash(b.Hash); hb != nil {
+									x, _ := hb.Serialize()
+									y, _ := b.Serialize()
+									if !bytes.Equal(x, y) {
+										tag := "C13"
+										if bv.field == "ChangesHash" {
+											tag = "C13 user-block-changes-hash"
+										}
+										fail("%s: a variant (%s) of block %s/%d with the same hash %s served inside momentum %d was accepted by a follower and is stored with different bytes than the original", tag, bv.name(), addrName(b.Address), b.Height, h8(b.Hash), H)
+									}
+								}
+							}
+						}
+					}
+				} else if applyFieldMut(c, vm, fv.field, fv.mut) {
+					if vm = rewireMomentum(vm); vm != nil && vm.Hash == m.Hash {
+						_, lerr := f.InsertChain([]*nom.DetailedMomentum{{Momentum: vm, AccountBlocks: dm.AccountBlocks}})
+						res := "accepted"
+						if lerr != nil {
+							res = "rejected"
+						}
+						c.Emit("variant momentum %s | %s", fv.name(), res)
+						c.Hit("momentum-variant-" + fv.name() + "-" + res)
+						if lerr == nil {
+							hm, _ := f.ch.GetFrontierMomentumStore().GetMomentumByHash(m.Hash)
+							if hm != nil {
+								x, _ := hm.Serialize()
+								y, _ := m.Serialize()
+								if !bytes.Equal(x, y) {
+									fail("C13: a variant (%s) of momentum %d with the same hash %s was accepted by a follower and is stored with different bytes than the original (original %d bytes, signature %d bytes, public key %d bytes; stored %d bytes, signature %d bytes, public key %d bytes)",
+										fv.name(), H, h8(m.Hash), len(y), len(m.Signature), len(m.PublicKey), len(x), len(hm.Signature), len(hm.PublicKey))
+								}
+							}
+						}
+					}
+				}
+			}
+		}
+		if f.Height() >= H {
+			// the (accepted) variant took the place of momentum H; the comparison with the reference follower below decides
+		} else if err := deliverHonest(f, H, f.Height()+1); err != nil {
 			if poisoned {
 				// known finding F9 (the changes hash of a user block is neither covered by the hash nor checked): the poisoned
 				// follower is replaced by a fresh one so that the rest of the history still checks the other variants
